@@ -81,8 +81,11 @@ def binders(inner, tag):
     o = obj('O' + tag, n=plain('with-' + tag), decoy=plain('dw-' + tag))
     items = lst('L' + tag, [obj('I' + tag, n=plain('in-' + tag))])
     mitems = lst('M' + tag, [mp('MI' + tag, n=plain('inmap-' + tag))])
+    # a sequence of mixed elements: objects are pushed, plain strings and numbers are not -- element by element
+    mixed = lst('X' + tag, [obj('XI' + tag, n=plain('in-' + tag)), plain('just-text-' + tag), obj('XJ' + tag, n=plain('in2-' + tag)),
+                            plain('tail-' + tag)])
     f = fn('FC' + tag, plain('ifcache-' + tag))
-    ns = {'o' + tag: o, 'l' + tag: items, 'ml' + tag: mitems, 'fc' + tag: f, 'src' + tag: plain('let-' + tag)}
+    ns = {'o' + tag: o, 'l' + tag: items, 'ml' + tag: mitems, 'fc' + tag: f, 'src' + tag: plain('let-' + tag), 'mx' + tag: mixed}
     mid = [T('(' + tag + ':'), V('n')] + inner + [V('n'), T(')')]
     blocks = [
         With(N('o' + tag), mid),
@@ -90,6 +93,8 @@ def binders(inner, tag):
         In(N('l' + tag), mid),
         In(N('ml' + tag), mid, mapping=True),
         In(N('l' + tag), mid, nopush=True),
+        In(N('mx' + tag), mid),
+        In(N('mx' + tag), mid, start=1, size=3),
         Try([Raise('KeyError', [T('k')])], [(['KeyError'], [T('(h' + tag + ':'), V('error_type'), V('n')] + inner + [V('error_type'), T(')')])], None),
         # if caches the *called* value of its named condition for the body
         If([(N('fc' + tag), [T('(if' + tag + ':'), V('fc' + tag)] + inner + [V('fc' + tag), T(')')])]),
